@@ -157,3 +157,121 @@ func VerifC05LeadingContent() {
 	}
 	verifCover("C05/leading/end")
 }
+
+// ---- the decoder's own comment handling ----
+
+// c05CommentTexts: YAML streams whose comments sit where yq's decoder (not yaml.v3) has to route them: before the
+// first document, between documents, after a flow-style root, after the last document, on a document start line.
+var c05CommentTexts = []string{
+	"# lead\na: 1\n",
+	"a: 1 # line\n# foot\n",
+	"a: 1\n---\n{b: 2}\n# foot of flow root\n",
+	"a: 1\n---\n[1, 2]\n# foot of flow seq\n",
+	"{b: 2}\n# foot first\n",
+	"# lead one\n# lead two\n\na: 1\n---\n# lead of second\nb: 2\n",
+	"--- # on the separator\na: 1\n",
+	"a:\n  # head of b\n  b: 1 # line of b\n  # foot of b\nc: 2\n",
+	"- 1 # one\n- 2\n# tail\n",
+	"a: 1\n---\nb: 2\n# foot of block root\n",
+	"# only a comment\n",
+	"x: 0\n---\n{a: 1}\n# foot\n\n# foot2\n",
+	"a: 1\n# foot\n\n# second paragraph\n",
+	"a: 1\n\n# after a blank line\n",
+	"# lead\n\n# second lead paragraph\na: 1\n",
+	"a: 1 # la\nb: # lb\n  - x # lx\n",
+}
+
+func c05AllComments(n *CandidateNode) string {
+	if n == nil {
+		return ""
+	}
+	s := n.LeadingContent + "\n" + n.HeadComment + "\n" + n.LineComment + "\n" + n.FootComment + "\n"
+	for _, c := range n.Content {
+		s += c05AllComments(c)
+	}
+	return s
+}
+
+// VerifC05DecodeComments: every comment of the input is somewhere in the decoded documents (a comment field of a node
+// or the document's leading content) — the decoder drops none while it moves document-level comments onto the root.
+func VerifC05DecodeComments() {
+	ti := verifChoice("text", len(c05CommentTexts))
+	text := c05CommentTexts[ti]
+	prefs := NewDefaultYamlPreferences()
+	prefs.LeadingContentPreProcessing = verifChoice("leadingContentPreProcessing", 2) == 1
+	dec := NewYamlDecoder(prefs)
+	if err := dec.Init(strings.NewReader(text)); err != nil {
+		verifFail("C05/decoder-init")
+	}
+	all := ""
+	for i := 0; i < 4; i++ {
+		n, err := dec.Decode()
+		if err != nil {
+			break
+		}
+		all += c05AllComments(n)
+	}
+	// the comments of the input: everything from a '#' that starts a comment to the end of its line
+	for _, line := range strings.Split(text, "\n") {
+		i := strings.Index(line, "#")
+		if i < 0 {
+			continue
+		}
+		c := strings.TrimSpace(line[i+1:])
+		verifAssert(strings.Contains(all, c), "C05/decoder-lost-a-comment text="+verifItoa(int64(ti)))
+	}
+	verifCover("C05/decode-comments/end")
+}
+
+func c05Identity(text string, prefs YamlPreferences) (string, bool) {
+	dec := NewYamlDecoder(prefs)
+	if err := dec.Init(strings.NewReader(text)); err != nil {
+		return "", false
+	}
+	var sb strings.Builder
+	printer := NewPrinter(NewYamlEncoder(prefs), NewSinglePrinterWriter(bufio.NewWriter(c17Writer{&sb})))
+	for i := 0; i < 5; i++ {
+		n, err := dec.Decode()
+		if err != nil {
+			break
+		}
+		n.document = uint(i)
+		if perr := printer.PrintResults(n.AsList()); perr != nil {
+			return "", false
+		}
+	}
+	return sb.String(), true
+}
+
+// VerifC05IdentityText: `yq .` on the same streams, through the real decoder, printer and encoder (yaml.v3 runs
+// natively on these concrete texts): the output keeps every comment and feeding it back reproduces it byte for byte.
+func VerifC05IdentityText() {
+	ti := verifChoice("text", len(c05CommentTexts))
+	text := c05CommentTexts[ti]
+	prefs := NewDefaultYamlPreferences()
+	out1, ok1 := c05Identity(text, prefs)
+	verifAssert(ok1, "C05/identity-failed text="+verifItoa(int64(ti)))
+	if !ok1 {
+		return
+	}
+	verifObserve("out", out1)
+	for _, line := range strings.Split(text, "\n") {
+		i := strings.Index(line, "#")
+		if i < 0 {
+			continue
+		}
+		c := strings.TrimSpace(line[i+1:])
+		// the comment is still a comment of its own: a line that is "# c", or a line ending in " # c"
+		found := false
+		for _, ol := range strings.Split(out1, "\n") {
+			t := strings.TrimSpace(ol)
+			if t == "# "+c || strings.HasSuffix(t, " # "+c) {
+				found = true
+			}
+		}
+		verifAssert(found, "C05/identity-lost-a-comment text="+verifItoa(int64(ti)))
+	}
+	out2, ok2 := c05Identity(out1, prefs)
+	verifAssert(ok2 && out2 == out1, "C05/identity-not-idempotent text="+verifItoa(int64(ti)))
+	verifCover("C05/identity-text/end")
+}
